@@ -329,6 +329,131 @@ run_xfer(void *arg)
 }
 
 // ---------------------------------------------------------------------------------
+// (g) bursts towards a receiver that is not reading: several messages are in flight or parked in
+// the transport while the application does not receive; what is accepted must come out whole, in
+// order, unmerged.  Receive buffer 0/1/2, protocols with and without a protocol-level queue.
+// ---------------------------------------------------------------------------------
+typedef struct barg {
+	int tran, proto; // proto: 0 pair0, 1 pair1, 2 push->pull
+} barg;
+static const int BURST[] = { 10, 200, 0, 33, 1000, 7, 126, 70000, 1 };
+#define NBURST ((int) (sizeof(BURST) / sizeof(BURST[0])))
+static void
+run_burst(void *arg)
+{
+	barg *x = arg;
+	if (x->tran == T_TCP || x->tran == T_WS)
+		vs_tcp_grace_us = 1500;
+	vh_init(0);
+	nng_socket a, b; // a receives, b sends
+	if (x->proto == 0) {
+		VH_OK(nng_pair0_open(&a));
+		VH_OK(nng_pair0_open(&b));
+	} else if (x->proto == 1) {
+		VH_OK(nng_pair1_open(&a));
+		VH_OK(nng_pair1_open(&b));
+	} else {
+		VH_OK(nng_pull0_open(&a));
+		VH_OK(nng_push0_open(&b));
+	}
+	int rb = vs_choose(VK_ENV, 3);
+	if (x->proto != 2)
+		VH_OK(nng_socket_set_int(a, NNG_OPT_RECVBUF, rb));
+	VH_OK(nng_socket_set_int(b, NNG_OPT_SENDBUF, vs_choose(VK_ENV, 2) ? 8 : 0));
+	VH_OK(nng_socket_set_ms(a, NNG_OPT_RECVTIMEO, 100));
+	VH_OK(nng_socket_set_ms(b, NNG_OPT_SENDTIMEO, 20));
+	char         url[200];
+	nng_listener l;
+	switch (x->tran) {
+	case T_INPROC:
+		VH_OK(nng_listen(a, "inproc://c01b", &l, 0));
+		VH_OK(nng_dial(b, "inproc://c01b", NULL, 0));
+		break;
+	case T_SOCKFD: {
+		int          sv[2];
+		nng_listener l2;
+		if (socketpair(AF_UNIX, SOCK_STREAM, 0, sv) != 0)
+			vs_fail("harness:setup", "socketpair");
+		VH_OK(nng_listener_create(&l, a, "socket://"));
+		VH_OK(nng_listener_start(l, 0));
+		VH_OK(nng_listener_create(&l2, b, "socket://"));
+		VH_OK(nng_listener_start(l2, 0));
+		VH_OK(nng_listener_set_int(l, NNG_OPT_SOCKET_FD, sv[0]));
+		VH_OK(nng_listener_set_int(l2, NNG_OPT_SOCKET_FD, sv[1]));
+	} break;
+	case T_IPC:
+		snprintf(url, sizeof(url), "ipc://%s/c01b-%d.sock", vx_rundir(), (int) getpid());
+		VH_OK(nng_listen(a, url, &l, 0));
+		VH_OK(nng_dial(b, url, NULL, 0));
+		break;
+	default: {
+		int port = 0;
+		VH_OK(nng_listen(a,
+		    x->tran == T_WS ? "ws://127.0.0.1:0/c01b" : "tcp://127.0.0.1:0", &l, 0));
+		VH_OK(nng_listener_get_int(l, NNG_OPT_BOUND_PORT, &port));
+		snprintf(url, sizeof(url),
+		    x->tran == T_WS ? "ws://127.0.0.1:%d/c01b" : "tcp://127.0.0.1:%d", port);
+		VH_OK(nng_dial(b, url, NULL, 0));
+	} break;
+	}
+	vs_settle();
+	if (x->tran == T_TCP || x->tran == T_WS)
+		vs_sleep(2);
+	int nb = 4 + vs_choose(VK_ENV, NBURST - 3); // 4 .. NBURST messages before the first receive
+	int accepted[NBURST], na = 0;
+	for (int m = 0; m < nb; m++) {
+		nng_msg *msg;
+		VH_OK(nng_msg_alloc(&msg, (size_t) BURST[m]));
+		for (int i = 0; i < BURST[m]; i++)
+			((uint8_t *) nng_msg_body(msg))[i] = pat(m, (size_t) i);
+		int rv = nng_sendmsg(b, msg, 0);
+		if (rv != 0) {
+			nng_msg_free(msg); // back-pressure: the message stayed with us
+			if (rv != NNG_ETIMEDOUT && rv != NNG_EAGAIN)
+				vs_fail("C01:send:refused", "burst send %d over %s -> %s", m,
+				    TN[x->tran], nng_strerror(rv));
+			continue;
+		}
+		accepted[na++] = m;
+		vs_settle();
+	}
+	// now the receiver reads; the rest of the burst follows while it does
+	int got = 0;
+	for (;;) {
+		nng_msg *msg = NULL;
+		int      rv  = nng_recvmsg(a, &msg, 0);
+		if (rv != 0)
+			break;
+		if (got >= na)
+			vs_fail("C01:recv:extra", "%s: message %d arrived, only %d were accepted",
+			    TN[x->tran], got, na);
+		int m = accepted[got];
+		if ((int) nng_msg_len(msg) != BURST[m])
+			vs_fail("C01:recv:length",
+			    "%s burst of %d (recvbuf %d): delivery %d has %zu bytes, message %d was "
+			    "sent with %d",
+			    TN[x->tran], nb, rb, got, nng_msg_len(msg), m, BURST[m]);
+		for (int i = 0; i < BURST[m]; i++)
+			if (((uint8_t *) nng_msg_body(msg))[i] != pat(m, (size_t) i))
+				vs_fail("C01:recv:altered",
+				    "%s burst: delivery %d (message %d) differs at byte %d",
+				    TN[x->tran], got, m, i);
+		nng_msg_free(msg);
+		got++;
+	}
+	if (got != na)
+		vs_fail("C01:recv:lost",
+		    "%s burst of %d (recvbuf %d): %d accepted by send, %d delivered with the "
+		    "connection up",
+		    TN[x->tran], nb, rb, na, got);
+	vs_nontrivial();
+	vs_outcome("accepted=%d", na);
+	nng_socket_close(b);
+	nng_socket_close(a);
+	vh_fini();
+}
+
+// ---------------------------------------------------------------------------------
 // (e) inproc header pull-up: raw header sizes x body sizes, shared vs unique
 // ---------------------------------------------------------------------------------
 static void
@@ -634,6 +759,21 @@ main(int argc, char **argv)
 			snprintf(name, sizeof(name), "xfer-ws-frag%zu", FR[f]);
 			explore(strdup(name), run_xfer, x, T ? 1 : 0, T ? 1 : 0);
 		}
+	}
+	// (g) bursts towards a receiver that is not reading
+	{
+		static barg B[20];
+		int         nbg = 0;
+		static const char *PN[] = { "pair0", "pair1", "pushpull" };
+		for (int t = 0; t <= T_WS; t++)
+			for (int pr = 0; pr < 3; pr++) {
+				barg *x  = &B[nbg++];
+				x->tran  = t;
+				x->proto = pr;
+				char name[64];
+				snprintf(name, sizeof(name), "burst-%s-%s", TN[t], PN[pr]);
+				explore(strdup(name), run_burst, x, 0, 0);
+			}
 	}
 	// (f) raw websocket client: handshake and frames in one cut stream
 	explore("wsraw-len40", run_wsraw, (void *) 40, 0, 0);
